@@ -225,3 +225,224 @@ Qed.
 
 Lemma init_sub_owner_inv b : sub_owner_inv (init_state b).
 Proof. split; intros n d H; simpl in H; by rewrite lookup_empty in H. Qed.
+
+(* ---- "a sub-name expires with its parent": every sub-name's expiry height equals its
+   parent's, preserved by every transaction outside the uncommitted-sub-name trigger ---- *)
+Definition subs_expire (r : gmap name domain) : Prop :=
+  forall (n : name) d, r !! n = Some d -> is_sub n = true ->
+    exists p, r !! parent_name n = Some p /\ d_expiry p = d_expiry d.
+Definition sub_expiry_eq_inv (s : state) : Prop := names_wf (reg s) /\ subs_expire (reg s).
+
+Lemma inv_expiry_preserving (r r1 : gmap name domain) :
+  (forall n, d_expiry <$> r1 !! n = d_expiry <$> r !! n) ->
+  names_wf r /\ subs_expire r -> names_wf r1 /\ subs_expire r1.
+Proof.
+  intros Ho [Hwf Hso]. split.
+  - intros n d Hd. specialize (Ho n). rewrite Hd in Ho. simpl in Ho.
+    destruct (r !! n) as [d0|] eqn:H0; [|discriminate]. by eapply Hwf.
+  - intros n d Hd Hs. pose proof (Ho n) as Hn. rewrite Hd in Hn. simpl in Hn.
+    destruct (r !! n) as [d0|] eqn:H0; [|discriminate]. injection Hn as Hn.
+    destruct (Hso n d0 H0 Hs) as (p & Hp & Hpo).
+    pose proof (Ho (parent_name n)) as Hpn. rewrite Hp in Hpn. simpl in Hpn.
+    destruct (r1 !! parent_name n) as [p1|]; [|discriminate]. injection Hpn as Hpn.
+    exists p1. split; [done|]. congruence.
+Qed.
+
+Lemma inv_expiry_delete_subs (r r1 : gmap name domain) :
+  (forall n, r1 !! n = r !! n \/ (r1 !! n = None /\ is_sub n = true)) ->
+  names_wf r /\ subs_expire r -> names_wf r1 /\ subs_expire r1.
+Proof.
+  intros Hd [Hwf Hso]. split.
+  - intros n d H1. destruct (Hd n) as [He|[He _]]; rewrite He in H1; [by eapply Hwf|discriminate].
+  - intros n d H1 Hs. destruct (Hd n) as [He|[He _]]; rewrite He in H1; [|discriminate].
+    destruct (Hso n d H1 Hs) as (p & Hp & Hpo). exists p. split; [|done].
+    destruct (Hd (parent_name n)) as [Hpe|[_ Hps]]; [by rewrite Hpe|].
+    rewrite parent_not_sub in Hps; [discriminate|]. by eapply Hwf.
+Qed.
+
+Lemma uncommitted_false s p n d :
+  existsb (fun n0 => is_sub_of p n0 && negb (bool_decide (n0 ∈ snap s)))
+          (map fst (map_to_list (reg s))) = false ->
+  reg s !! n = Some d -> is_sub_of p n = true -> visited s p n = true.
+Proof.
+  unfold visited. intros Ht Hn Hs. rewrite Hs. simpl.
+  destruct (bool_decide (n ∈ snap s)) eqn:Hin; [done|exfalso].
+  assert (existsb (fun n0 => is_sub_of p n0 && negb (bool_decide (n0 ∈ snap s)))
+            (map fst (map_to_list (reg s))) = true) as Hex; [|congruence].
+  apply existsb_exists. exists n. split.
+  - apply elem_of_list_In. apply elem_of_list_fmap. exists (n, d). split; [done|].
+    by apply elem_of_map_to_list.
+  - by rewrite Hs, Hin.
+Qed.
+
+Theorem run_op_sub_expiry_inv e s o s1 : run_op e s o = Some s1 ->
+  trig_uncommitted s o = false -> sub_expiry_eq_inv s -> sub_expiry_eq_inv s1.
+Proof.
+  intros H Ht Hinv. unfold sub_expiry_eq_inv in *.
+  destruct o as [a b n0 uo u p|a b n0 act uo u|a n0 p c|a b n0 p|a n0 p|a n0 p|a n0]; simpl in H.
+  - (* create *)
+    unfold run_create in H.
+    destruct (p <=? o_base (e_opts e)); [discriminate|].
+    destruct (bool_decide (is_Some (reg s !! n0))) eqn:Hex; [discriminate|].
+    apply bool_decide_eq_false in Hex. rewrite <- eq_None_not_Some in Hex.
+    destruct (debit (bal s) a p); [|discriminate].
+    destruct (negb (name_valid (e_opts e) n0)) eqn:Hval; [discriminate|].
+    apply negb_false_iff, name_valid_len in Hval.
+    destruct (negb (u =? "")%string && negb uo); [discriminate|].
+    destruct Hinv as [Hwf Hso].
+    assert (forall (x : option Z) x', (if is_sub n0 then
+               match reg s !! parent_name n0 with
+               | Some p0 => if bool_decide (d_owner p0 = a) then Some (d_expiry p0) else None
+               | None => None end else x) = Some x' ->
+             is_sub n0 = true -> exists p0, reg s !! parent_name n0 = Some p0 /\ d_expiry p0 = x') as Hpar.
+    { intros x x' Hm Hs. rewrite Hs in Hm. destruct (reg s !! parent_name n0) as [p0|]; [|discriminate].
+      destruct (bool_decide (d_owner p0 = a)); [|discriminate]. injection Hm as <-. by exists p0. }
+    match type of H with match ?X with _ => _ end = _ => destruct X as [x|] eqn:Hx; [|discriminate] end.
+    injection H as <-. simpl. split.
+    + intros n d Hd. destruct (decide (n = n0)) as [->|Hne]; [done|].
+      rewrite lookup_insert_ne in Hd by done. by eapply Hwf.
+    + intros n d Hd Hs. destruct (decide (n = n0)) as [->|Hne].
+      * rewrite lookup_insert in Hd. injection Hd as <-. simpl.
+        destruct (Hpar _ _ Hx Hs) as (p0 & Hp0 & Ho). exists p0. split; [|done].
+        rewrite lookup_insert_ne; [done|]. intros Heq. rewrite Heq in Hp0. congruence.
+      * rewrite lookup_insert_ne in Hd by done. destruct (Hso n d Hd Hs) as (p0 & Hp0 & Ho).
+        exists p0. split; [|done]. rewrite lookup_insert_ne; [done|]. intros Heq.
+        rewrite <- Heq in Hp0. congruence.
+  - (* update *)
+    unfold run_update in H.
+    destruct (reg s !! n0) as [d|] eqn:Hd; [|discriminate].
+    destruct (negb (is_changeable d (e_h e))); [discriminate|].
+    destruct (negb (bool_decide (d_owner d = a))); [discriminate|].
+    destruct (negb (u =? "")%string && negb uo); [discriminate|].
+    injection H as <-. simpl. eapply inv_expiry_preserving; [|exact Hinv].
+    intros n. destruct (decide (n = n0)) as [->|Hne].
+    + by rewrite lookup_insert, Hd.
+    + rewrite lookup_insert_ne by done. destruct (negb act && negb (is_sub n0)); [|done].
+      rewrite lookup_map_subs. destruct (visited s n0 n); [|done].
+      destruct (reg s !! n); reflexivity.
+  - (* sell *)
+    unfold run_sell in H.
+    destruct (p <=? o_perblock (e_opts e)); [discriminate|].
+    destruct (p <? 0); [discriminate|]. destruct (is_sub n0); [discriminate|].
+    destruct (reg s !! n0) as [d|] eqn:Hd; [|discriminate].
+    destruct (negb (bool_decide (d_owner d = a))); [discriminate|].
+    destruct (negb (is_changeable d (e_h e))); [discriminate|].
+    destruct (is_expired d (e_h e)); [discriminate|].
+    injection H as <-. simpl. eapply inv_expiry_preserving; [|exact Hinv].
+    intros n. destruct (decide (n = n0)) as [->|Hne].
+    + rewrite lookup_insert, Hd. by destruct c.
+    + by rewrite lookup_insert_ne.
+  - (* purchase *)
+    unfold run_purchase in H.
+    destruct (reg s !! n0) as [d|] eqn:Hd; [|discriminate].
+    destruct (negb (d_onsale d) && (e_v e <=? d_expiry d)); [discriminate|].
+    destruct (is_sub n0) eqn:Hsub0; [discriminate|].
+    destruct Hinv as [Hwf Hso].
+    assert (length n0 = 2%nat) as Hlen.
+    { pose proof (Hwf _ _ Hd). unfold is_sub in Hsub0. apply Nat.leb_gt in Hsub0. lia. }
+    assert (forall d' : domain,
+      names_wf (<[n0:=d']> (delete_subs s n0)) /\ subs_expire (<[n0:=d']> (delete_subs s n0))) as Hgoal.
+    { intros d'. split.
+      - intros n dn Hn. destruct (decide (n = n0)) as [->|Hne]; [lia|].
+        rewrite lookup_insert_ne in Hn by done. rewrite lookup_delete_subs in Hn.
+        destruct (visited s n0 n); [discriminate|]. by eapply Hwf.
+      - intros n dn Hn Hs. destruct (decide (n = n0)) as [->|Hne]; [congruence|].
+        rewrite lookup_insert_ne in Hn by done. rewrite lookup_delete_subs in Hn.
+        destruct (visited s n0 n) eqn:Hv; [discriminate|].
+        destruct (Hso n dn Hn Hs) as (p0 & Hp0 & Ho).
+        destruct (decide (parent_name n = n0)) as [Hpn|Hpn].
+        + exfalso. pose proof (parent_is_sub_of n Hs) as Hso'. rewrite Hpn in Hso'.
+          pose proof (uncommitted_false _ _ _ _ Ht Hn Hso'). congruence.
+        + exists p0. split; [|done]. rewrite lookup_insert_ne by done. rewrite lookup_delete_subs.
+          destruct (visited s n0 (parent_name n)) eqn:Hvp; [|done].
+          apply visited_sub in Hvp. apply (is_sub_of_parent _ _ Hlen) in Hvp as [_ Hps].
+          rewrite parent_not_sub in Hps; [discriminate|]. by eapply Hwf. }
+    repeat (match type of H with
+            | match ?X with _ => _ end = _ => destruct X eqn:?; try discriminate
+            | (if ?X then _ else _) = _ => destruct X eqn:?; try discriminate
+            | (let '(_, _) := ?X in _) = _ => destruct X eqn:?
+            end).
+    all: injection H as <-; simpl; apply Hgoal.
+  - (* send *)
+    apply send_changes in H as (Hr & _). by rewrite Hr.
+  - (* renew: the parent and every committed sub-name get the same new expiry; outside the
+       trigger there is no other sub-name *)
+    unfold run_renew in H.
+    destruct (p <=? o_perblock (e_opts e)); [discriminate|].
+    destruct (is_sub n0) eqn:Hsub0; [discriminate|].
+    destruct (reg s !! n0) as [d|] eqn:Hd; [|discriminate].
+    destruct (negb (is_changeable d (e_h e))); [discriminate|].
+    destruct (is_expired d (e_v e)); [discriminate|].
+    destruct (negb (bool_decide (d_owner d = a))); [discriminate|].
+    destruct (debit (bal s) a p); [|discriminate].
+    destruct (blocks_bought p (o_perblock (e_opts e))); [|discriminate].
+    destruct (expiry_overflows (d_expiry d) z); [discriminate|].
+    destruct Hinv as [Hwf Hso].
+    assert (length n0 = 2%nat) as Hlen.
+    { pose proof (Hwf _ _ Hd). unfold is_sub in Hsub0. apply Nat.leb_gt in Hsub0. lia. }
+    injection H as <-. simpl. split.
+    + intros n dn Hn. destruct (decide (n = n0)) as [->|Hne]; [lia|].
+      rewrite lookup_insert_ne in Hn by done. rewrite lookup_map_subs in Hn.
+      destruct (reg s !! n) as [d0|] eqn:H0; [by eapply Hwf|].
+      destruct (visited s n0 n); discriminate.
+    + intros n dn Hn Hs. destruct (decide (n = n0)) as [->|Hne]; [congruence|].
+      rewrite lookup_insert_ne in Hn by done. rewrite lookup_map_subs in Hn.
+      destruct (reg s !! n) as [d0|] eqn:H0; [|destruct (visited s n0 n); discriminate].
+      destruct (visited s n0 n) eqn:Hv.
+      * simpl in Hn. injection Hn as <-. simpl.
+        pose proof (visited_sub _ _ _ Hv) as Hsub. apply (is_sub_of_parent _ _ Hlen) in Hsub as [Hpn _].
+        rewrite Hpn, lookup_insert. eexists. split; [done|]. done.
+      * injection Hn as <-. destruct (Hso n d0 H0 Hs) as (p0 & Hp0 & Ho).
+        destruct (decide (parent_name n = n0)) as [Hpn|Hpn].
+        -- exfalso. pose proof (parent_is_sub_of n Hs) as Hso'. rewrite Hpn in Hso'.
+           pose proof (uncommitted_false _ _ _ _ Ht H0 Hso'). congruence.
+        -- exists p0. split; [|done]. rewrite lookup_insert_ne by done. rewrite lookup_map_subs.
+           destruct (visited s n0 (parent_name n)) eqn:Hvp; [|done].
+           apply visited_sub in Hvp. apply (is_sub_of_parent _ _ Hlen) in Hvp as [_ Hps].
+           rewrite parent_not_sub in Hps; [discriminate|]. by eapply Hwf.
+  - (* delete-sub *)
+    unfold run_deletesub in H.
+    destruct (reg s !! (if is_sub n0 then parent_name n0 else n0)) as [p|] eqn:Hp; [|discriminate].
+    destruct (negb (is_changeable p (e_h e))); [discriminate|].
+    destruct (negb (bool_decide (d_owner p = a))); [discriminate|].
+    destruct (is_sub n0) eqn:Hsub.
+    + destruct (reg s !! n0) as [d|] eqn:Hd; [|discriminate].
+      injection H as <-. simpl. eapply inv_expiry_delete_subs; [|exact Hinv].
+      intros n. destruct (decide (n = n0)) as [->|Hne].
+      * right. by rewrite lookup_delete.
+      * left. by rewrite lookup_delete_ne.
+    + injection H as <-. simpl. eapply inv_expiry_delete_subs; [|exact Hinv].
+      intros n. rewrite lookup_delete_subs. destruct (visited s n0 n) eqn:Hv; [right|by left].
+      split; [done|]. apply visited_sub in Hv. destruct Hinv as [Hwf _].
+      pose proof (Hwf _ _ Hp) as Hl. unfold is_sub_of in Hv. apply andb_true_iff in Hv as [Hv _].
+      apply Nat.ltb_lt in Hv. unfold is_sub. apply Nat.leb_le. lia.
+Qed.
+
+Theorem deliver_sub_expiry_inv s t : trig_uncommitted s (t_op t) = false ->
+  sub_expiry_eq_inv s -> sub_expiry_eq_inv (deliver s t).1.
+Proof.
+  intros Ht Hinv. unfold deliver. destruct (negb (validate t)); [done|].
+  destruct (run_op (t_env t) s (t_op t)) as [s1|] eqn:Hop; [|done].
+  destruct (fee_step s1 t) as [s2|] eqn:Hf; [|done]. simpl.
+  apply fee_step_spec in Hf as (f & _ & Hr & _). unfold sub_expiry_eq_inv. rewrite Hr.
+  by eapply run_op_sub_expiry_inv.
+Qed.
+
+Fixpoint no_trigger_u (s : state) (evs : list event) : Prop :=
+  match evs with
+  | [] => True
+  | Tx t :: rest => trig_uncommitted s (t_op t) = false /\ no_trigger_u (deliver s t).1 rest
+  | EndBlock :: rest => no_trigger_u (end_block s) rest
+  end.
+
+Theorem history_sub_expiry_inv evs : forall s, sub_expiry_eq_inv s -> no_trigger_u s evs ->
+  sub_expiry_eq_inv (run s evs).
+Proof.
+  induction evs as [|ev evs IH]; intros s Hinv Hnt; simpl in *; [done|].
+  destruct ev as [t|]; simpl in *.
+  - destruct Hnt as [Ht Hnt]. apply IH; [by apply deliver_sub_expiry_inv|done].
+  - apply IH; done.
+Qed.
+
+Lemma init_sub_expiry_inv b : sub_expiry_eq_inv (init_state b).
+Proof. split; intros n d H; simpl in H; by rewrite lookup_empty in H. Qed.
